@@ -213,7 +213,7 @@ def check_step(chk):
     if not seen:
         chk.ok('C08.E', f'{n} abstract runs (all {len(codes) - len(CURATED)} statement lists of length <= {depth} over label A/B, jump A/B, jumpif A, expr, assignment, return, return expr; '
                f'{len(CURATED)} longer curated lists; global and function scope; 4 truth schedules; limit {limit}): outcome, evaluated expressions in order, scope of evaluation, '
-               f'assignments and statement count agree with the documented semantics')
+               f'assignments and statement count agree with the documented semantics', count=n)
         chk.ok('C08.J', 'a jump is taken iff it has no expr or value_boolean(evaluated expr); the expression is evaluated exactly once; no host truthiness of an evaluated value (all runs)')
         chk.ok('C08.L', 'a taken jump continues after the FIRST label of that name in the CURRENT list (also at index 0, also backwards, also when cached); unknown label raises BareScriptRuntimeError')
         chk.ok('C08.R', 'return ends the invocation with the evaluated expr or None; running past the end returns None (all runs)')
